@@ -13,7 +13,7 @@ from gallia.command import AsyncScript
 from gallia.command.base import AsyncScriptConfig
 from gallia.command.config import AutoInt, Field
 from gallia.log import get_logger
-from gallia.net import net_if_broadcast_addrs
+from gallia.net import join_host_port, net_if_broadcast_addrs
 from gallia.services.uds.core.service import TesterPresentRequest, TesterPresentResponse
 from gallia.transports.doip import (
     DiagnosticMessageNegativeAckCodes,
@@ -283,7 +283,7 @@ class DoIPDiscoverer(AsyncScript):
                 await asyncio.sleep(tcp_connect_delay)
 
             targets.append(
-                f"doip://{tgt_hostname}:{tgt_port}?protocol_version={self.protocol_version}&activation_type={routing_activation_type:#x}&src_addr={source_address:#x}"
+                f"doip://{join_host_port(tgt_hostname, tgt_port)}?protocol_version={self.protocol_version}&activation_type={routing_activation_type:#x}&src_addr={source_address:#x}"
             )
             logger.notice(f"[🤯] Holy moly, it actually worked: {targets[-1]}")
 
@@ -315,7 +315,7 @@ class DoIPDiscoverer(AsyncScript):
         unreachable_targets = []
         search_space = range(start, stop + 1)
 
-        target_template = f"doip://{tgt_hostname}:{tgt_port}?protocol_version={self.protocol_version}&activation_type={correct_rat:#x}&src_addr={correct_src:#x}&target_addr={{:#x}}"
+        target_template = f"doip://{join_host_port(tgt_hostname, tgt_port)}?protocol_version={self.protocol_version}&activation_type={correct_rat:#x}&src_addr={correct_src:#x}&target_addr={{:#x}}"
         conn = await self.create_DoIP_conn(
             tgt_hostname, tgt_port, correct_rat, correct_src, 0xAFFE, fast_queue=True
         )
